@@ -946,9 +946,12 @@ def check_world(pid, tier, seed):
                                 spec_rejected=sum(1 for r in results if r["acc_code"] != 0)),
             faithful_model_diverged=bool(diverged),
             evaluations=len(results), distinct_nontrivial=len(nontriv), distinct=len(distinct),
-            rule="histories: corpus + all well-formed histories over the reduced alphabet up to the stated length "
-                 "+ structured random + planted failing batches (+ long churn for C17), each executed on the real "
-                 "World and on the extracted model; non-trivial = " + p["nontrivial"],
+            rule=(("histories: corpus of minimised failures + the structured generators named under `generator` (with "
+                   "their counts), each history executed on the real World built from /repo and on the extracted model"
+                   if pid in STORE_PROPS else
+                   "histories: corpus + all well-formed histories over the reduced alphabet up to the stated length "
+                   "+ structured random + planted failing batches (+ long churn for C17), each executed on the real "
+                   "World and on the extracted model") + "; non-trivial = " + p["nontrivial"]),
             generator=dict(gstats), op_histogram=dict(ophist), error_histogram=dict(errkinds),
             samples=samples, exhaustive=False, search=search_note,
             known_findings=[known_cls[(pid, c)]["text"] for c in known_hits],
